@@ -394,6 +394,18 @@ impl Adversary {
                 let l = self.members.leader_index(r);
                 if self.byz.contains(&l) {
                     self.lead(l, r);
+                } else if self.coin(self.cfg.equivocate * 0.3, 19) {
+                    // Usurpation: a correctly signed proposal for a round it does not lead.
+                    let b = self.byz[0];
+                    let high = self.high_qc();
+                    if high.round + 1 == r {
+                        let blk = self.mk_block(b, r, high, None, vec![]);
+                        self.blocks.insert(ident::block_digest(&blk), blk.clone());
+                        for h in self.honest.clone() {
+                            self.send_cons(b, h, &ConsensusMessage::Propose(blk.clone()));
+                        }
+                        self.stat("usurping-proposal");
+                    }
                 }
             }
             self.max_round = round_seen;
